@@ -12,6 +12,7 @@ import (
 	"reflect"
 	"strconv"
 	"strings"
+	"unsafe"
 
 	"github.com/alecthomas/participle/v2"
 	"github.com/alecthomas/participle/v2/lexer"
@@ -404,6 +405,8 @@ type c07xImpl struct {
 	sel    sql.ISelect
 	text   string
 	script *logql_parser.LogQLScript // a fresh parse (Plan cuts the one it is given)
+	plan   any                       // the ClickHouse request planner object of the chain
+	given  []*logql_parser.LabelFilter // per pipeline element of the script GIVEN to Plan its label filter (nil: another stage)
 }
 
 func c07xImplSQL(query string, c qctx) (*c07xImpl, error) {
@@ -413,6 +416,11 @@ func c07xImplSQL(query string, c qctx) (*c07xImpl, error) {
 	}
 	fresh, _ := logql_parser.Parse(query)
 	res := &c07xImpl{script: fresh}
+	if script.StrSelector != nil {
+		for i := range script.StrSelector.Pipelines {
+			res.given = append(res.given, script.StrSelector.Pipelines[i].LabelFilter)
+		}
+	}
 	var perr error
 	func() {
 		defer func() {
@@ -434,6 +442,7 @@ func c07xImplSQL(query string, c qctx) (*c07xImpl, error) {
 			perr = fmt.Errorf("plan: no ClickHouse getter in the chain")
 			return
 		}
+		res.plan = g.ClickhouseRequestPlanner
 		sel, err := g.ClickhouseRequestPlanner.Process(c.planner())
 		if err != nil {
 			perr = fmt.Errorf("process: %w", err)
@@ -470,8 +479,8 @@ func c07xStageKinds(r *h.Result, stream string, s *logql_parser.LogQLScript) {
 // c07TextX: byte-equal SQL between the real path and LogQL.planScript
 func c07TextX(r *h.Result, rng *h.Rng, n int, cov *c07gCov) error {
 	r.Stream("textx: logql_parser.Parse → logql_transpiler_v2.Plan (GetBreakpoint, breakScript, clickhouse_planner.Plan) → the ClickHouse request planner of the chain → Process → String vs LogQL.planScript/Sql.renderSel (byte-equal SQL; json with parameters, regexp, drop, filters after them, hand-over)")
-	var ops, impl []string
-	var cases []any
+	var ops, impl, anOps, anImpl []string
+	var cases, anCases []any
 	for i := 0; i < n; i++ {
 		query := c07xGenQuery(rng, 5)
 		if i%2 == 1 {
@@ -512,6 +521,29 @@ func c07TextX(r *h.Result, rng *h.Rng, n int, cov *c07gCov) error {
 		ops = append(ops, "c07planx "+c.ser()+" "+ser)
 		impl = append(impl, h.Hex([]byte(im.text)))
 		cases = append(cases, map[string]any{"query": query, "ctx": c})
+		// the push-down as the plan OBJECT has it: which pipeline elements' filters sit in SimpleLabelFilterPlanner wrappers
+		if stages := ser[strings.Index(ser, " ")+1:]; stages != "-" {
+			var sql []string
+			for _, st := range strings.Split(stages, ";") {
+				if strings.HasPrefix(st, "I:") {
+					break
+				}
+				sql = append(sql, st)
+			}
+			if len(sql) > 0 {
+				pushed := c07xPushedDown(im.plan)
+				marks := make([]byte, len(sql))
+				for j := range marks {
+					marks[j] = '0'
+					if j < len(im.given) && im.given[j] != nil && pushed[im.given[j]] {
+						marks[j] = '1'
+					}
+				}
+				anOps = append(anOps, "c07analyze "+strings.Join(sql, ";"))
+				anImpl = append(anImpl, string(marks))
+				anCases = append(anCases, map[string]any{"query": query})
+			}
+		}
 		r.Case("textx:"+query+fmt.Sprint(c), true)
 		c07xStageKinds(r, "textx", im.script)
 		bp, _ := lt.GetBreakpoint(im.script)
@@ -525,7 +557,82 @@ func c07TextX(r *h.Result, rng *h.Rng, n int, cov *c07gCov) error {
 			r.Sample(map[string]any{"stream": "textx", "query": query, "ctx": c, "sql": im.text})
 		}
 	}
+	// analysis: the marks of the model's `simpleOps` = the filters the real plan object decides on the stored labels
+	r.Stream("analysis: the label filters wrapped into SimpleLabelFilterPlanner objects in the plan logql_transpiler_v2.Plan built (object graph walked by reflection, filters identified by pointer) vs the marks of LogQL.simpleOps on the serialised pipeline")
+	ans, err := h.Model(anOps)
+	if err != nil {
+		return err
+	}
+	for i := range anOps {
+		got := ans[i]
+		if j := strings.Index(got, " "); j > 0 {
+			got = got[:j]
+		}
+		r.Case("analysis:"+anOps[i], strings.Contains(anImpl[i], "1"))
+		if strings.Contains(anImpl[i], "1") {
+			r.Count("analysis:some-filter-pushed-down")
+		}
+		if got != anImpl[i] {
+			r.Disagree("analysis", anOps[i], anImpl[i], got, anCases[i])
+		}
+	}
 	return r.Compare("textx", ops, impl, cases)
+}
+
+// c07xPushedDown: the `Expr` of every SimpleLabelFilterPlanner reachable from a planner object
+func c07xPushedDown(root any) map[*logql_parser.LabelFilter]bool {
+	res := map[*logql_parser.LabelFilter]bool{}
+	seen := map[uintptr]bool{}
+	var walk func(v reflect.Value, depth int)
+	walk = func(v reflect.Value, depth int) {
+		if depth > 200 || !v.IsValid() {
+			return
+		}
+		switch v.Kind() {
+		case reflect.Interface:
+			if !v.IsNil() {
+				walk(v.Elem(), depth+1)
+			}
+		case reflect.Ptr:
+			if v.IsNil() || seen[v.Pointer()] {
+				return
+			}
+			seen[v.Pointer()] = true
+			if v.Type().Elem().Kind() == reflect.Struct && v.Type().Elem().Name() == "SimpleLabelFilterPlanner" {
+				if f := v.Elem().FieldByName("Expr"); f.IsValid() && f.CanInterface() {
+					if lf, ok := f.Interface().(*logql_parser.LabelFilter); ok && lf != nil {
+						res[lf] = true
+					}
+				}
+			}
+			if v.Type().Elem().Kind() == reflect.Struct || v.Type().Elem().Kind() == reflect.Ptr || v.Type().Elem().Kind() == reflect.Interface {
+				walk(v.Elem(), depth+1)
+			}
+		case reflect.Struct:
+			if strings.HasPrefix(v.Type().PkgPath(), "github.com/metrico/qryn/reader/logql/logql_parser") {
+				return // the syntax tree itself holds no planners
+			}
+			for i := 0; i < v.NumField(); i++ {
+				f := v.Field(i)
+				switch f.Kind() {
+				case reflect.Interface, reflect.Ptr, reflect.Struct, reflect.Slice:
+					if !f.CanInterface() {
+						if !f.CanAddr() {
+							continue
+						}
+						f = reflect.NewAt(f.Type(), unsafe.Pointer(f.UnsafeAddr())).Elem()
+					}
+					walk(f, depth+1)
+				}
+			}
+		case reflect.Slice:
+			for i := 0; i < v.Len(); i++ {
+				walk(v.Index(i), depth+1)
+			}
+		}
+	}
+	walk(reflect.ValueOf(root), 0)
+	return res
 }
 
 // ---------------------------------------------------------------- sem stream for the extended fragment
